@@ -110,7 +110,7 @@ ImageOK(e) == /\ e.g = 1
               /\ e.m1 = StoreAll(e.m0, e.locs, 1)
 
 (* ---- store buffering: store x; <op>; load y  ||  store y; <op>; load x ---- *)
-FenceOps == {"xchg", "cmpxchg", "add_return", "sub_return"}
+FenceOps == {"xchg", "cmpxchg", "add_return", "sub_return", "add_return0", "sub_return0"}     \* ...0: the same with a run-time operand of 0
 SbOK(e) == /\ e.n00 + e.n01 + e.n10 + e.n11 = e.iters
            /\ e.op \in FenceOps => e.n00 = 0                  \* both loads missing both stores: forbidden by a full barrier
            /\ e.op \in FenceOps \cup {"none"}
